@@ -100,17 +100,22 @@ ActEnd(g) ==
     /\ atask[g] = "activating"
     /\ toSend[g] = {}
     /\ IF g \in Delayed
-       THEN /\ Len(delayQ) < 1
-            /\ delayQ' = Append(delayQ, g)
-            /\ loc' = [loc EXCEPT ![g] = "delayed"]
-            /\ atask' = [atask EXCEPT ![g] = "dec"]
+       THEN /\ loc' = [loc EXCEPT ![g] = "delayed"]
+            /\ atask' = [atask EXCEPT ![g] = "pushing"]
             /\ UNCHANGED runner
        ELSE /\ loc' = [loc EXCEPT ![g] = "running"]
             /\ runner' = [runner EXCEPT ![g] = g]
             /\ atask' = [atask EXCEPT ![g] = "working"]
-            /\ UNCHANGED delayQ
-    /\ UNCHANGED <<remaining, scopeEnd, slotWork, local, toSend, flagged, done, errors, succ, roots,
+    /\ UNCHANGED <<remaining, delayQ, scopeEnd, slotWork, local, toSend, flagged, done, errors, succ, roots,
                    failing, soft, sawEmpty>>
+
+DelayPush(g) ==
+    /\ atask[g] = "pushing"
+    /\ Len(delayQ) < 1
+    /\ delayQ' = Append(delayQ, g)
+    /\ atask' = [atask EXCEPT ![g] = "dec"]
+    /\ UNCHANGED <<loc, runner, remaining, scopeEnd, slotWork, local, toSend, flagged, done, errors, succ,
+                   roots, failing, soft, sawEmpty>>
 
 (* Pop an item and handle it: success makes its requests pending. *)
 TakeItem(g, i) ==
@@ -222,7 +227,7 @@ ScopeEnd ==
 
 TaskStep(g) ==
     \/ ActBegin(g) \/ ActEnd(g) \/ SlotPark(g) \/ SlotPeek(g) \/ SlotSwap(g) \/ TaskStart(g)
-    \/ Dec(g) \/ DrainEmpty(g)
+    \/ Dec(g) \/ DrainEmpty(g) \/ DelayPush(g)
     \/ \E i \in Items : Request(g, i) \/ TakeItem(g, i) \/ TakeFail(g, i)
     \/ \E d \in Groups : DelayPop(g, d)
 
